@@ -25,6 +25,10 @@
 //
 //   h_api ops      prints the nular / unary signatures of the operator registry (C20: which operators hand out containers)
 //
+//   h_api reent    C20 re-entrancy: stdin "<hex P>\t<hex Q>\t<k>"; instance A runs P, and inside A's log callback, at the k-th
+//                  diagnostic A emits while running, instance B (created before) runs Q - all on one thread.
+//                  stdout: "<record of A>\t<record of B or ->\t<1 if B ran inside the callback else 0>"   (records as in iso)
+//
 //   h_api iso
 //       C20: several VMs in ONE process.  stdin: "<mode>\t<hex P>\t<hex Q>"   mode: alone | after | beside | twice
 //         alone : P in a fresh VM                         after : Q in a VM, then P in a second, fresh VM (both stay alive)
@@ -103,7 +107,7 @@ static std::string diags(const RecLogger& lg, size_t from, size_t to)
     return r.empty() ? "-" : r;
 }
 
-static std::string vm_record(VM& vm, int res)
+template<class TVM> static std::string vm_record(TVM& vm, int res)
 {
     std::string o = std::to_string(res) + ":" + std::to_string(vm.state()) + ":";
     for (auto& m : vm.lg.msgs)
@@ -129,12 +133,64 @@ static std::string vm_record(VM& vm, int res)
     }
     return o;
 }
-static std::string run_text(VM& vm, const std::string& text)
+template<class TVM> static std::string run_text(TVM& vm, const std::string& text)
 {
     if (!vm.load(text, true)) return "LOADFAIL:" + diags(vm.lg, 0, vm.lg.msgs.size());
     int r = vm.start();
     return vm_record(vm, r);
 }
+
+// a VM assembled like vh::VM whose logger calls back into the harness on every message (re-entrancy search of C20)
+class HookLogger : public RecLogger
+{
+public:
+    std::function<void(size_t)> hook;
+    bool armed = false;
+    void log(const LogMessageBase& m) override
+    {
+        RecLogger::log(m);
+        if (armed && hook) hook(msgs.size() - 1);
+    }
+};
+struct HVM
+{
+    HookLogger lg;
+    std::unique_ptr<sqf::runtime::runtime> rt;
+    HVM()
+    {
+        sqf::runtime::runtime::runtime_conf conf;
+        conf.max_runtime = std::chrono::milliseconds(0);
+        conf.disable_sleep = false;
+        conf.enable_classname_check = true;
+        conf.disable_networking = true;
+        conf.print_context_work_to_log_on_exit = true;
+        rt = std::make_unique<sqf::runtime::runtime>(lg, conf);
+        rt->fileio(std::make_unique<sqf::fileio::impl_default>(lg));
+        rt->parser_config(std::make_unique<sqf::parser::config::parser>(lg));
+        rt->parser_preprocessor(std::make_unique<sqf::parser::preprocessor::impl_default>(lg));
+        rt->parser_sqf(std::make_unique<sqf::parser::sqf::parser>(lg));
+        sqf::operators::ops(*rt);
+    }
+    bool load(const std::string& text, bool preprocess = false, const std::string& file = "verif.sqf")
+    {
+        std::string src = text;
+        sqf::runtime::fileio::pathinfo pi{ std::string(file), std::string() };
+        if (preprocess)
+        {
+            auto pp = rt->parser_preprocessor().preprocess(*rt, src, pi);
+            if (!pp.has_value()) return false;
+            src = *pp;
+        }
+        auto set = rt->parser_sqf().parse(*rt, src, pi);
+        if (!set.has_value()) return false;
+        auto ctx = rt->context_create().lock();
+        sqf::runtime::frame f(rt->default_value_scope(), set.value());
+        ctx->push_frame(f);
+        return true;
+    }
+    int start() { return (int)rt->execute(sqf::runtime::runtime::action::start); }
+    int state() { return (int)rt->runtime_state(); }
+};
 
 int main(int argc, char** argv)
 {
@@ -148,6 +204,8 @@ int main(int argc, char** argv)
             std::cout << "N\t" << it->first.name << "\n";
         for (auto it = vm.rt->sqfop_unary_begin(); it != vm.rt->sqfop_unary_end(); ++it)
             std::cout << "U\t" << it->first.name << "\t" << it->first.right_type.to_string() << "\n";
+        for (auto it = vm.rt->sqfop_binary_begin(); it != vm.rt->sqfop_binary_end(); ++it)
+            std::cout << "B\t" << it->first.name << "\t" << it->first.left_type.to_string() << "\t" << it->first.right_type.to_string() << "\n";
         return 0;
     }
     if (mode == "clocktest")
@@ -246,6 +304,30 @@ int main(int argc, char** argv)
                 }
                 return o;
             }, 120000, API_MEM_MB);
+        }
+        else if (mode == "reent" && f.size() == 3)
+        {
+            // one thread: instance A runs P; inside A's log callback, at A's k-th diagnostic of the run, instance B runs Q
+            out = forked([&]() -> std::string {
+                vh::g_clock_ns = 0; vh::g_clock_tick_ns = 1000;
+                std::string P = unhex(f[0]), Q = unhex(f[1]);
+                long k = std::stol(f[2]);
+                VM b(0, true);
+                HVM a;
+                if (!a.load(P, true)) return "LOADFAIL:" + diags(a.lg, 0, a.lg.msgs.size()) + "\t-\t0";
+                size_t first = a.lg.msgs.size();
+                bool nested = false;
+                std::string rb = "-";
+                a.lg.hook = [&](size_t idx) {
+                    if (nested || k < 0 || idx != first + (size_t)k) return;
+                    nested = true;
+                    rb = run_text(b, Q);
+                };
+                a.lg.armed = true;
+                int r = a.start();
+                a.lg.armed = false;
+                return vm_record(a, r) + "\t" + rb + "\t" + (nested ? "1" : "0");
+            }, 60000, API_MEM_MB);
         }
         else if (mode == "iso" && f.size() == 3)
         {
